@@ -758,7 +758,10 @@ def ap_match(a, b):
         # an access path (root, projs)
         if not (len(b) == 2 and isinstance(b[0], tuple) and b[0] and isinstance(b[0][0], str)):
             return False
-        if a[0][0] == "local" and not a[1] or b[0][0] == "local" and not b[1]:
+        # a cut-off leaf stands for any expression; projections applied to it must be the last ones of the other side
+        if a[0][0] == "local" and (not a[1] or tuple(b[1][-len(a[1]):]) == tuple(a[1])):
+            return True
+        if b[0][0] == "local" and (not b[1] or tuple(a[1][-len(b[1]):]) == tuple(b[1])):
             return True
         return a[1] == b[1] and ap_match(a[0], b[0])
     if len(a) != len(b):
